@@ -45,7 +45,7 @@ def main():
                 raise OracleFailure("ill-formed:%s" % bad[0][0])
         counter[0] += 1
         if counter[0] % 200 == 0:
-            if c15.probe() != ref:
+            if c15.probe_now(0) != ref:
                 raise OracleFailure("residue")
 
     atheris.Setup([sys.argv[0]] + rest, one)
